@@ -152,9 +152,10 @@ func runConc(seed int64, run int, size string, timeout time.Duration) ([]Line, b
 	close(stopReaders)
 	rwg.Wait()
 	s.finish(pending)
-	blocked := s.isBlocked()
+	blocked := s.isDirty()
 	if !blocked {
 		s.waitAllDone()
+		blocked = s.isDirty()
 	}
 	lines, err := normalise(s.rootID, rec.stop(), run)
 	if err != nil {
